@@ -9,6 +9,8 @@ C03.ir       : one IR vocabulary: every top-level IR dict literal built anywhere
                uses only keys of the IntermediateRepr TypedDict (shared with C14.shape).
 C03.none     : one None sentinel: ast_utils.NoneStr == defaults_utils.NoneStr == none_types[-1]
                in every version branch.
+C02.optional, C02.falsy, C10.modstate (memoisation) are re-run here: a chain cannot preserve what
+               a single hop loses, and hops cannot commute if a result depends on call history.
 """
 
 import ast
@@ -197,4 +199,11 @@ def run(ctx):
             ctx.ob("C03.none", index.module("cdd.shared.pure_utils"), "none_types[-1] == NoneStr for Python {}.{}".format(*py), ok, "" if ok else "{!r} != {!r}".format(nt, known[0]), line=1)
     ctx.samples = rows
     ctx.exhaustive = True
+    # single-hop necessary conditions shared with C02 / C10: a chain cannot preserve what one hop loses,
+    # and conversions cannot commute if a hop's result depends on what the process converted before
+    from . import c02, c10
+
+    c02._optional(ctx, index)
+    c02._falsy(ctx, index)
+    c10._memoised(ctx)
 
